@@ -711,7 +711,13 @@ func main() {
 		return a.Scenario < b.Scenario
 	})
 	tried := map[string]int{}
+	// development aid (selftest.sh): stop confirming further violations once this many unlisted ones are confirmed;
+	// unset in every registered command
+	confirmLimit, _ := strconv.Atoi(os.Getenv("VERIF_CONFIRM_LIMIT"))
 	for _, v := range m.Violations {
+		if confirmLimit > 0 && len(unlisted) >= confirmLimit {
+			break
+		}
 		isKnown := false
 		for _, f := range findings {
 			if f.Property == id && f.Status == "known" && f.Signature == v.Signature {
